@@ -31,17 +31,35 @@ def k2_of(c):
     return float(k2)
 
 
-def curve_series(c):
-    d = {"k_1": float(c["k1"]), "ND": float(c["ND"]), "SD": float(c["SD"])}
+def int_fields_possible(c):
+    """the curve can be written with Python ints only (then `pd.Series({...})` is an int64 Series, a frame has int64 columns)"""
+    vals = [c["k1"], c["ND"], c["SD"]] + [c[k] for k in ("TN", "TS") if c.get(k) is not None]
     if c.get("k2") is not None:
-        d["k_2"] = k2_of(c)
+        if c["k2"] == "inf":
+            return False
+        vals.append(c["k2"])
+    return c.get("pf0") is None and all(float(v).is_integer() and abs(v) < 2 ** 53 for v in vals)
+
+
+def curve_series(c):
+    num = (lambda x: int(x)) if (c.get("int_fields") and int_fields_possible(c)) else float
+    d = {"k_1": num(c["k1"]), "ND": num(c["ND"]), "SD": num(c["SD"])}
+    if c.get("k2") is not None:
+        d["k_2"] = k2_of(c) if c["k2"] == "inf" else num(k2_of(c))
     if c.get("TN") is not None:
-        d["TN"] = float(c["TN"])
+        d["TN"] = num(c["TN"])
     if c.get("TS") is not None:
-        d["TS"] = float(c["TS"])
+        d["TS"] = num(c["TS"])
     if c.get("pf0") is not None:
         d["failure_probability"] = float(c["pf0"])
     return pd.Series(d)
+
+
+def as_arg(case, x):
+    """a scalar argument of a call: a Python int when the case asks for integer-typed calls and the value is integral"""
+    if case.get("ints") and float(x).is_integer() and abs(x) < 2 ** 62:
+        return int(x)
+    return x
 
 
 def curve_tokens(c):
@@ -214,8 +232,43 @@ def native_pf(c):
     return 0.5 if c.get("pf0") is None else c["pf0"]
 
 
+def gen_int_curve(rng):
+    """a curve whose SD, ND (and mostly k_1, k_2, TN) are integral, as users type them: {'k_1': 5, 'ND': 10**6, 'SD': 100}"""
+    c = gen_curve(rng)
+    c["k1"] = float(rng.choice([3, 5, 7, 12, 4]))
+    r = rng.random()
+    c["k2"] = None if r < 0.25 else "inf" if r < 0.5 else c["k1"] if r < 0.6 else 2.0 * c["k1"] - 1.0 if r < 0.8 else c["k1"] + rng.randrange(1, 20)
+    c["SD"] = float(rng.choice([100, 300, 7, 1250, rng.randrange(2, 5000)]))
+    c["ND"] = float(rng.choice([10 ** 6, 2 * 10 ** 6, 1000, 10 ** 7, rng.randrange(1000, 10 ** 8)]))
+    if rng.random() < 0.6:
+        c["TS"] = None
+        c["TN"] = None if rng.random() < 0.5 else float(rng.choice([1, 2, 4, 10]))
+    if rng.random() < 0.6:
+        c["pf0"] = None
+    return c
+
+
+def gen_int_values(rng, ref, n, hi_factor):
+    """integers around the integral reference value: exactly at it, its two neighbours, random ones below and above"""
+    ref = int(ref)
+    out = [ref, ref + 1, max(1, ref - 1)]
+    for _ in range(n):
+        out.append(rng.randrange(1, max(2, ref)) if rng.random() < 0.5 else rng.randrange(ref, hi_factor * ref + 2))
+    return [float(v) for v in out]
+
+
+BC_MODES = ["series", "array", "list", "cross", "zip_series", "zip_array", "lseries", "larray", "llist",
+            "lcross", "lzip_series", "lzip_array", "zip_series", "lzip_series"]
+FRAME_MODES = ("cross", "zip_series", "zip_array", "lcross", "lzip_series", "lzip_array")
+LOAD_MODES = ("lseries", "larray", "llist", "lcross", "lzip_series", "lzip_array")      # load(cycles): values are cycle numbers
+# open / fixed findings of the unchanged tree that this module classifies (see KNOWN_FINDINGS.jsonl)
+K_UNSIGNED = "load-unsigned-cycles-wraparound"
+K_NOCURVE = "cycles-label-without-curve-infinite-life"
+
+
 class C08(Prop):
     ID = "C08"
+    PARALLEL = 8          # impl_lines / oracle are sharded over forked processes by core.pmap
     SOURCES = ["src/pylife/materiallaws/woehlercurve.py", "src/pylife/utils/functions.py",
                "src/pylife/strength/fatigue.py"]
     LEAN_MODULES = ["Proofs.C08", "Proofs.BridgeC08"]
@@ -235,6 +288,7 @@ class C08(Prop):
         "PylifeVerif.C08.cycles_monotone_in_pf",
         "PylifeVerif.C08.N90_over_N10",
         "PylifeVerif.C08.N90_over_N10_below_knee",
+        "PylifeVerif.C08.N90_over_N10_between_knees",
         "PylifeVerif.C08.SD90_over_SD10",
         "PylifeVerif.C08.transform_compose",
         "PylifeVerif.C08.transform_native_id",
@@ -249,8 +303,14 @@ class C08(Prop):
             "TN/TS missing, one given, both, consistent; native failure probability missing or in (0,1)) x 2-4 target "
             "probabilities (always incl. the native one) x loads (exactly SD, its two neighbours, log grid, near-knee, "
             "random) x cycle numbers (exactly ND, neighbours, grid, random): transform, cycles, load, two-step transform, "
-            "the three Miner modifiers, all as scalar calls; 'bc' = the same evaluation with array / Series / "
-            "DataFrame-of-curves inputs (cross product and aligned); 'sc' = scatter conversions and the numeric constants; "
+            "the three Miner modifiers, all as scalar calls, a part of them with INTEGER-typed arguments (Python ints) and "
+            "integer-typed curve fields (int64 Series); cycles()/load() without a failure probability = 0.5; "
+            "'bc' = cycles() AND load() with list / array / Series against one curve and against a DataFrame of curves "
+            "(cross product on another index name; aligned on the same index name with the labels in the frame's order, "
+            "PERMUTED, a SUBSET, or with a label the frame does not have; positional for arrays), float64 / int64 / int32 / "
+            "uint64 / uint32 / Python-int values, one failure probability and one per row of the frame; every broadcast is "
+            "compared with the model's map / cross / zip functions AND element by element with the scalar model under the "
+            "pairing that label alignment has to produce; 'sc' = scatter conversions and the numeric constants; "
             "'ppf' = the driver's normal quantile against scipy. Doubles compared with rtol 1e-11 (inf/NaN exactly). "
             "non-trivial = a target probability differs from the native one or a load lies below the knee; "
             "distinct by full case content")
@@ -258,7 +318,8 @@ class C08(Prop):
         "C08: scipy.stats.norm.ppf is an abstract function in the theorems (strictly increasing on (0,1), ppf(1-p) = -ppf(p) where a theorem needs it); the driver uses its own Float quantile (A&S 26.2.23 start + Newton on series/continued-fraction CDF), agreement with scipy is measured (<= 1e-13) on every run",
         "C08: the theorems are over the reals with Real.rpow / Real.log; the code's doubles agree with the same formulas in Float to rtol 1e-11 on this run's inputs; float overflow/underflow of ND*(L/SD)^(-k) (result inf or 0 with finite k) is not modelled by the real-number theorems",
         "C08: the literal 0.39015207303618954 is not exactly 1/(2*Phi^-1(0.9)): the TN/TS quantile theorems give the exact exponent 2*z90*c and the identity under the hypothesis 2*z90*c = 1; |2*ppf(0.9)*c - 1| < 1e-15 is checked numerically (scipy and driver), |c*c2 - 1| < 1e-16 for the two literals is proved in Lean",
-        "C08: pandas glue (accessor copy, _validate, broadcast to Series/DataFrame, index alignment) is modelled as element-wise map / cross product / zip and checked by correspondence and by the scalar-vs-broadcast oracle only",
+        "C08: pandas glue (accessor copy, _validate, broadcast to Series/DataFrame, index alignment) is modelled as element-wise map / cross product / zip; alignment BY LABEL is computed by the harness (which value meets which curve) and the paired scalar evaluations are compared with the model and, in the oracle, with scalar calls of the real code; a curve without a value gives NaN; a value whose label has no curve must give NaN (repaired behaviour, finding cycles-label-without-curve-infinite-life)",
+        "C08: integer-typed loads / cycle numbers / curve fields mean the same numbers as floats (the oracle demands bit-equal results); unsigned cycle numbers into load() are a recorded defect (load-unsigned-cycles-wraparound): while it is open those inputs are judged by the oracle only, which tolerates exactly the reproduced defective value",
         "C08: loads and cycle numbers are positive; for load <= 0 the code returns inf/NaN without raising (outside the theorems' guards)",
     ]
 
@@ -283,14 +344,19 @@ class C08(Prop):
             sys.path.remove(tdir)
         self.stats["translator"] = msg
         log(("translator: " + msg) if ok else ("TRANSLATOR FAILED (broken proof obligation): " + msg))
+        if not ok:
+            log("the translator cannot express the current source of scattering_range_to_std / std_to_scattering_range / the "
+                "Miner modifiers: the bridge theorems (generated = hand model) are NOT checked; the correspondence run uses the "
+                "hand-written Model/Woehler.lean (never a stale generated file) and, like the direct oracle, still judges the code")
 
     def __init__(self):
         self.exhaustive = False
         self.stats = {"kinds": {}, "k2": {}, "scatter_keys": {}, "native_pf_missing": 0, "loads_at_SD": 0,
                       "loads_below_knee": 0, "loads_above_knee": 0, "cycles_at_ND": 0, "infinite_life_results": 0,
-                      "bc_modes": {}, "impl_errors": {}, "overflow_or_underflow_skipped": 0, "pf_extreme": 0,
+                      "bc_modes": {}, "bc_dtypes": {}, "bc_label_order": {}, "known_finding_hits": {}, "impl_errors": {}, "overflow_or_underflow_skipped": 0, "pf_extreme": 0,
                       "accessor": {}}
         self._fn = None
+        self._unsigned_open = any(e.get("class") == K_UNSIGNED and e.get("status") == "open" for e in core.load_known("C08"))
 
     # -------------------------------------------------------------- generation
     def _count(self, key, sub):
@@ -323,16 +389,29 @@ class C08(Prop):
             c["loads"] = gen_loads(rng, c["SD"], rng.choice([2, 4, 6]))
             c["cycles"] = gen_loads(rng, c["ND"], rng.choice([2, 4]))
             yield c
-        n_bc = 90 if quick else 600
+        # the same evaluation with integer-typed arguments (Python ints) and integer-typed curve fields: the code has a
+        # conversion of its own for them (`ensure_float_to_prevent_int_overflow`)
+        for i in range(40 if quick else 300):
+            c = gen_int_curve(rng)
+            c.update({"t": "curve", "src": "ints", "ints": True, "int_fields": rng.random() < 0.6})
+            pfs = [native_pf(c)] + [gen_pf(rng) for _ in range(rng.choice([1, 2]))]
+            rng.shuffle(pfs)
+            c["pfs"] = pfs
+            c["loads"] = gen_int_values(rng, c["SD"], rng.choice([2, 4]), 5)
+            c["cycles"] = gen_int_values(rng, c["ND"], rng.choice([2, 3]), 100)
+            yield c
+        n_bc = 150 if quick else 900
         for i in range(n_bc):
-            mode = rng.choice(["series", "array", "list", "cross", "zip_series", "zip_array", "lseries", "larray"])
+            mode = rng.choice(BC_MODES)
             n = rng.choice([1, 2, 3, 4])
-            if mode in ("cross", "zip_series", "zip_array"):
+            ints = rng.random() < 0.3
+            mk_curve = gen_int_curve if ints else gen_curve
+            if mode in FRAME_MODES:
                 m = rng.choice([1, 2, 3])
-                base = gen_curve(rng)
+                base = mk_curve(rng)
                 curves = []
                 for _ in range(m):
-                    c = gen_curve(rng)
+                    c = mk_curve(rng)
                     # a frame has the same columns in every row
                     for key in ("TN", "TS", "pf0", "k2"):
                         if base.get(key) is None:
@@ -342,22 +421,47 @@ class C08(Prop):
                     if c["TN"] is not None and c["TS"] is not None and base["TN"] is not None:
                         pass
                     curves.append(c)
-                if mode != "cross":
+                if mode not in ("cross", "lcross"):
                     n = m
             else:
-                curves = [gen_curve(rng)]
+                curves = [mk_curve(rng)]
             ref = curves[rng.randrange(len(curves))]
-            if mode in ("lseries", "larray"):
-                vals = gen_loads(rng, ref["ND"], n)[:max(n, 1)] if rng.random() < 0.5 else \
-                    [ref["ND"] * loguni(rng, 0.01, 100.0) for _ in range(n)]
+            if mode in LOAD_MODES:
+                if ints:
+                    vals = gen_int_values(rng, ref["ND"], n, 100)
+                else:
+                    vals = gen_loads(rng, ref["ND"], n) if rng.random() < 0.5 else \
+                        [ref["ND"] * loguni(rng, 0.01, 100.0) for _ in range(n + 3)]
             else:
-                vals = gen_loads(rng, ref["SD"], n)
-                rng.shuffle(vals)
-                vals = vals[:n]
+                vals = gen_int_values(rng, ref["SD"], n, 5) if ints else gen_loads(rng, ref["SD"], n)
+            rng.shuffle(vals)
+            vals = vals[:max(n, 1)]
             pf = rng.choice([0.5, native_pf(ref), gen_pf(rng)])
             case = {"t": "bc", "mode": mode, "curves": curves, "vals": vals, "pf": pf}
-            if mode in ("zip_series", "zip_array"):
-                # oracle only: a failure probability per row of the frame (array parameter against a DataFrame signal)
+            if ints:
+                big = max(vals) >= 2 ** 31
+                case["dtype"] = rng.choice(["int64", "int64", "pyint", "uint64"] + ([] if big else ["int32", "uint32"]))
+                for c in curves:
+                    c["int_fields"] = case["dtype"] != "uint64" and rng.random() < 0.5
+            if mode in ("zip_series", "lzip_series"):
+                # the loads carry the labels of the frame's index: in the frame's order, permuted, only some of them,
+                # or with a label the frame does not have (aligned by label, never by position)
+                labels = [3 * j + 2 for j in range(len(curves))]
+                how = rng.choice(["same", "permuted", "permuted", "subset", "superset"])
+                if how != "same":
+                    rng.shuffle(labels)
+                if how == "subset" and len(labels) > 1:
+                    labels = labels[:rng.randrange(1, len(labels))]
+                elif how == "superset":
+                    labels.insert(rng.randrange(len(labels) + 1), 3 * len(curves) + 2)
+                scale = ref["ND"] if mode == "lzip_series" else ref["SD"]
+                while len(vals) < len(labels):
+                    vals.append(float(int(scale * rng.uniform(0.3, 3.0)) + 1) if ints else scale * loguni(rng, 0.3, 3.0))
+                case["vals"] = vals[:len(labels)]
+                case["labels"] = labels
+                case["label_order"] = how
+            if mode in FRAME_MODES and mode not in ("cross", "lcross"):
+                # a failure probability per row of the frame (array parameter against a DataFrame signal)
                 case["pf_rows"] = [rng.choice([pf, gen_pf(rng)]) for _ in curves]
             yield case
         n_sc = 40 if quick else 400
@@ -385,13 +489,28 @@ class C08(Prop):
             toks = " ".join(curve_tokens(c) for c in case["curves"])
             vals = " ".join(f2h(v) for v in case["vals"])
             mode = case["mode"]
+            if self._bc_known_defect_input(case):
+                return []          # oracle only until the repair is in the tree (see K_UNSIGNED)
+            lines = []
+            # the model's own broadcast functions (element-wise map / cross product / zip)
             if mode in ("series", "array", "list"):
-                return [f"wc cycs {toks} {f2h(case['pf'])} {vals}"]
-            if mode in ("lseries", "larray"):
-                return [f"wc loads {toks} {f2h(case['pf'])} {vals}"]
-            if mode == "cross":
-                return [f"wc cross {len(case['curves'])} {toks} {f2h(case['pf'])} {vals}"]
-            return [f"wc zip {len(case['curves'])} {toks} {f2h(case['pf'])} {vals}"]
+                lines.append(f"wc cycs {toks} {f2h(case['pf'])} {vals}")
+            elif mode in ("lseries", "larray", "llist"):
+                lines.append(f"wc loads {toks} {f2h(case['pf'])} {vals}")
+            elif mode == "cross":
+                lines.append(f"wc cross {len(case['curves'])} {toks} {f2h(case['pf'])} {vals}")
+            elif mode == "zip_array" or (mode == "zip_series" and case.get("label_order", "same") == "same"):
+                lines.append(f"wc zip {len(case['curves'])} {toks} {f2h(case['pf'])} {vals}")
+            # ... and element by element, with the pairing (curve, value) that label alignment has to produce
+            op = "load" if mode in LOAD_MODES else "cyc"
+            for _key, ci, v in self._bc_elements(case):
+                if ci is not None and v is not None:
+                    lines.append(f"wc {op} {curve_tokens(case['curves'][ci])} {f2h(case['pf'])} {f2h(v)}")
+            if case.get("pf_rows"):
+                for _key, ci, v in self._bc_elements(case):
+                    if ci is not None and v is not None:
+                        lines.append(f"wc {op} {curve_tokens(case['curves'][ci])} {f2h(case['pf_rows'][ci])} {f2h(v)}")
+            return lines
         if t == "sc":
             return [f"wc r2s {f2h(case['T'])}", f"wc s2r {f2h(case['s'])}", "wc consts"]
         if t == "ppf":
@@ -402,52 +521,95 @@ class C08(Prop):
     def _frame(self, curves):
         rows = [curve_series(c) for c in curves]
         df = pd.DataFrame(rows, index=pd.Index([3 * i + 2 for i in range(len(rows))], name="curve"))
+        if all(c.get("int_fields") and int_fields_possible(c) for c in curves):
+            df = df.astype("int64")      # a frame typed in as integers
         return df
 
     def _bc_signal(self, case):
         """(pandas object the user holds, accessor) of a broadcast case, built afresh."""
         curves = case["curves"]
-        if case["mode"] in ("series", "array", "list", "lseries", "larray"):
+        if case["mode"] not in FRAME_MODES:
             obj = curve_series(curves[0])
             return obj, accessor(curves[0], obj)
         df = self._frame(curves)
         return df, df.woehler
 
+    @staticmethod
+    def _bc_container(case):
+        """the values in the container type / dtype the case asks for"""
+        vals, dt = case["vals"], case.get("dtype")
+        if dt == "pyint":
+            return [int(v) for v in vals]
+        if dt:
+            return np.array([int(v) for v in vals], dtype=dt)
+        return [float(v) for v in vals]
+
+    def _bc_known_defect_input(self, case):
+        """unsigned cycle numbers into load(): a recorded defect of the unchanged tree (K_UNSIGNED).  While the finding is OPEN
+        these inputs are judged by the oracle only (it reproduces the defective computation and tolerates exactly that);
+        once KNOWN_FINDINGS.jsonl says `fixed` they run through the correspondence like every other input."""
+        return self._unsigned_open and str(case.get("dtype", "")).startswith("uint") and case["mode"] in LOAD_MODES
+
     def _bc_raw(self, case, w, pf=None):
         """The broadcast call on the real code: the raw result."""
-        mode, vals = case["mode"], [float(v) for v in case["vals"]]
+        mode, vals = case["mode"], self._bc_container(case)
         pf = float(case["pf"]) if pf is None else pf
+        fn = w.load if mode in LOAD_MODES else w.cycles
         idx = pd.Index([10 + 2 * i for i in range(len(vals))], name="x")
-        if mode in ("series", "cross"):
-            return w.cycles(pd.Series(vals, index=idx), pf)
-        if mode in ("array", "zip_array"):
-            return w.cycles(np.array(vals), pf)
-        if mode == "list":
-            return w.cycles(list(vals), pf)
-        if mode == "lseries":
-            return w.load(pd.Series(vals, index=idx), pf)
-        if mode == "larray":
-            return w.load(np.array(vals), pf)
-        if mode == "zip_series":
-            return w.cycles(pd.Series(vals, index=w.to_pandas().index), pf)
+        if mode in ("series", "cross", "lseries", "lcross"):
+            return fn(pd.Series(vals, index=idx), pf)
+        if mode in ("array", "zip_array", "larray", "lzip_array"):
+            return fn(np.asarray(vals), pf)
+        if mode in ("list", "llist"):
+            return fn([x.item() if hasattr(x, "item") else x for x in vals], pf)
+        if mode in ("zip_series", "lzip_series"):
+            labels = case.get("labels") or [3 * i + 2 for i in range(len(case["curves"]))]
+            return fn(pd.Series(vals, index=pd.Index(labels, name="curve")), pf)
         raise ValueError(mode)
 
-    def _bc_flat(self, case, w, r):
-        """... flattened in the model's order."""
-        mode, vals = case["mode"], case["vals"]
-        idx = [10 + 2 * i for i in range(len(vals))]
+    @staticmethod
+    def _bc_elements(case):
+        """What the call means element by element: [(key in the result, position of the curve or None, value or None)]
+        in a canonical order.  Series against a frame on the same index name are paired BY LABEL; a curve without a value
+        and a value without a curve have no element-wise evaluation."""
+        mode, vals, m = case["mode"], case["vals"], len(case["curves"])
+        xs = [10 + 2 * i for i in range(len(vals))]
+        frame = [3 * i + 2 for i in range(m)]
         if mode in ("series", "lseries"):
-            assert isinstance(r, pd.Series) and list(r.index) == idx and list(r.index.names) == ["x"]
-            return [float(x) for x in r.values]
-        if mode == "cross":
-            return [float(r[(ci, xi)]) for ci in w.to_pandas().index for xi in idx]
-        if mode == "zip_series":
-            return [float(r[ci]) for ci in w.to_pandas().index]
-        return [float(x) for x in np.asarray(r).reshape(-1)]
+            return [(x, 0, v) for x, v in zip(xs, vals)]
+        if mode in ("array", "list", "larray", "llist"):
+            return [(i, 0, v) for i, v in enumerate(vals)]
+        if mode in ("cross", "lcross"):
+            return [((c, x), ci, v) for ci, c in enumerate(frame) for x, v in zip(xs, vals)]
+        if mode in ("zip_array", "lzip_array"):
+            return [(i, i, v) for i, v in enumerate(vals)]
+        labels = case.get("labels") or frame
+        out = [(c, ci, vals[labels.index(c)] if c in labels else None) for ci, c in enumerate(frame)]
+        out += [(l, None, v) for l, v in zip(labels, vals) if l not in frame]
+        return out
 
-    def _bc_impl(self, case):
+    def _bc_flat(self, case, w, r):
+        """the result's numbers in the order of `_bc_elements`; raises AssertionError (with a description) when the
+        result does not have the container type / index the call has to produce"""
+        mode = case["mode"]
+        keys = [k for k, _ci, _v in self._bc_elements(case)]
+        if mode in ("series", "lseries", "cross", "lcross", "zip_series", "lzip_series"):
+            assert isinstance(r, pd.Series), f"the result is a {type(r).__name__}, not a Series"
+            assert len(r) == len(keys) and set(r.index) == set(keys), \
+                f"the result's index is {list(r.index)!r}, expected the labels {keys!r}"
+            want_names = {"series": ["x"], "lseries": ["x"], "cross": ["curve", "x"], "lcross": ["curve", "x"]}.get(mode, ["curve"])
+            assert list(r.index.names) == want_names, f"the result's index names are {list(r.index.names)!r}, expected {want_names!r}"
+            assert r.dtype == np.float64, f"the result's dtype is {r.dtype}"
+            return [float(r[k]) for k in keys]
+        a = np.asarray(r)
+        assert not isinstance(r, (pd.Series, pd.DataFrame)), f"the result is a {type(r).__name__}, not an array"
+        assert a.dtype == np.float64, f"the result's dtype is {a.dtype}"
+        assert a.size == len(keys), f"the result has {a.size} entries, the call {len(keys)} elements"
+        return [float(x) for x in a.reshape(-1)]
+
+    def _bc_impl(self, case, pf=None):
         _user, w = self._bc_signal(case)
-        return self._bc_flat(case, w, self._bc_raw(case, w))
+        return self._bc_flat(case, w, self._bc_raw(case, w, pf))
 
     def impl_lines(self, case):
         fn = _wc()
@@ -467,13 +629,17 @@ class C08(Prop):
             self.stats["cycles_at_ND"] += sum(1 for N in cyc if N == case["ND"])
             self.stats["pf_extreme"] += sum(1 for p in pfs if p < 1e-5 or p > 1 - 1e-5)
             out = [guarded(lambda: canon_curve(w.transform_to_failure_probability(p).to_pandas())) for p in pfs]
+            if case.get("ints"):
+                self.stats["curve_cases_integer_typed"] = self.stats.get("curve_cases_integer_typed", 0) + 1
+                if s.dtype.kind == "i":
+                    self.stats["curve_cases_int64_series"] = self.stats.get("curve_cases_int64_series", 0) + 1
             for p in pfs:
                 for L in loads:
-                    r = guarded(lambda: f2h(fl(w.cycles(L, p))))
+                    r = guarded(lambda: f2h(fl(w.cycles(as_arg(case, L), p))))
                     out.append(r)
                     if r == f2h(INF):
                         self.stats["infinite_life_results"] += 1
-            out += [guarded(lambda: f2h(fl(w.load(N, p)))) for p in pfs for N in cyc]
+            out += [guarded(lambda: f2h(fl(w.load(as_arg(case, N), p)))) for p in pfs for N in cyc]
             out += [guarded(lambda: canon_curve(
                 w.transform_to_failure_probability(p).transform_to_failure_probability(q).to_pandas()))
                 for p, q in zip(pfs, pfs[1:])]
@@ -485,10 +651,33 @@ class C08(Prop):
             return out
         if t == "bc":
             self._count("bc_modes", case["mode"])
-            r = guarded(lambda: " ".join(f2h(x) for x in self._bc_impl(case)))
-            if r.startswith("error:"):
+            self._count("bc_dtypes", case.get("dtype") or "float64")
+            if case.get("labels") is not None:
+                self._count("bc_label_order", case.get("label_order", "same"))
+            if self._bc_known_defect_input(case):
+                return []
+            n_model = len(self.model_lines(case))
+            try:
+                got = self._bc_impl(case)
+            except Exception as e:
+                r = "error:" + type(e).__name__
                 self._count("impl_errors", r)
-            return [r]
+                return [r] * n_model
+            els = self._bc_elements(case)
+            paired = [g for g, (_k, ci, v) in zip(got, els) if ci is not None and v is not None]
+            mode = case["mode"]
+            out = []
+            if mode in ("series", "array", "list", "lseries", "larray", "llist", "cross", "zip_array") or \
+                    (mode == "zip_series" and case.get("label_order", "same") == "same"):
+                out.append(" ".join(f2h(x) for x in got))
+            out += [f2h(x) for x in paired]
+            if case.get("pf_rows"):
+                try:
+                    got2 = self._bc_impl(case, np.array(case["pf_rows"], dtype=np.float64))
+                    out += [f2h(g) for g, (_k, ci, v) in zip(got2, els) if ci is not None and v is not None]
+                except Exception as e:
+                    out += ["error:" + type(e).__name__] * len(paired)
+            return out
         if t == "sc":
             import scipy.stats as st
             z90 = float(st.norm.ppf(0.9))
@@ -579,10 +768,34 @@ class C08(Prop):
             return res
 
         def cyc(L, p):
-            return fl(w.cycles(L, p))
+            return fl(w.cycles(as_arg(case, L), p))
 
         def lod(N, p):
-            return fl(w.load(N, p))
+            return fl(w.load(as_arg(case, N), p))
+
+        # ---- the default failure probability of cycles() / load() is 0.5 (NOT the curve's native one)
+        for L in case["loads"][:2]:
+            a, b = fl(w.cycles(as_arg(case, L))), cyc(L, 0.5)
+            if f2h(a) != f2h(b):
+                return (f"cycles({L!r}) without a failure probability = {a!r}, cycles({L!r}, 0.5) = {b!r}; {tag}", "default-probability")
+        for N in case["cycles"][:2]:
+            a, b = fl(w.load(as_arg(case, N))), lod(N, 0.5)
+            if f2h(a) != f2h(b):
+                return (f"load({N!r}) without a failure probability = {a!r}, load({N!r}, 0.5) = {b!r}; {tag}", "default-probability")
+        # ---- integer-typed arguments / curve fields give the numbers of the same values as floats
+        if case.get("ints"):
+            wf = accessor(case, curve_series({**case, "int_fields": False}))
+            for p in case["pfs"]:
+                for L in case["loads"]:
+                    a, b = cyc(L, p), fl(wf.cycles(float(L), p))
+                    if f2h(a) != f2h(b):
+                        return (f"cycles({as_arg(case, L)!r}, {p!r}) with integer-typed input = {a!r}, with the same values as "
+                                f"floats = {b!r} (curve fields {dict(s)!r}); {tag}", "integer-input")
+                for N in case["cycles"]:
+                    a, b = lod(N, p), fl(wf.load(float(N), p))
+                    if f2h(a) != f2h(b):
+                        return (f"load({as_arg(case, N)!r}, {p!r}) with integer-typed input = {a!r}, with the same values as "
+                                f"floats = {b!r} (curve fields {dict(s)!r}); {tag}", "integer-input")
 
         # ---- _validate: TN/TS semantics
         if case.get("TN") is None and case.get("TS") is None:
@@ -725,6 +938,26 @@ class C08(Prop):
             n10, n90 = cyc(L, 0.1), cyc(L, 0.9)
             if math.isfinite(n90) and n10 > 1e-290 and not close(n90 / n10, TN, 1e-9):
                 return (f"N_90/N_10 = {n90 / n10!r} != TN = {TN!r} at load {L!r} (>= SD_90); {tag}", "TN-ratio")
+        # ... and the two other load ranges (theorems N90_over_N10_between_knees / _below_knee): between the knees the 90 %
+        # curve is already on its k_2 line (infinite life for k_2 = inf), below both knees both are
+        sd10, sd90 = float(t10.SD), float(t90.SD)
+        if sd10 < sd90 * (1 - 1e-9):
+            L = math.sqrt(sd10 * sd90)
+            n10, n90 = cyc(L, 0.1), cyc(L, 0.9)
+            if math.isinf(k2):
+                if n90 != INF or not math.isfinite(n10):
+                    return (f"k_2=inf, load {L!r} between SD_10={sd10!r} and SD_90={sd90!r}: N_90={n90!r} (must be inf), N_10={n10!r} (finite); {tag}", "TN-ratio")
+            elif math.isfinite(n90) and n10 > 1e-290 and n90 > 1e-290:
+                want = math.log(TN) + (k2 - k1) * (math.log(sd90) - math.log(L))
+                if not close(math.log(n90 / n10), want, 1e-8, atol=1e-9):
+                    return (f"load {L!r} between the knees: log(N_90/N_10) = {math.log(n90 / n10)!r}, expected log TN + (k_2-k_1) log(SD_90/L) = {want!r}; {tag}", "TN-ratio")
+        if math.isfinite(k2):
+            L = 0.5 * sd10
+            n10, n90 = cyc(L, 0.1), cyc(L, 0.9)
+            if math.isfinite(n90) and n10 > 1e-290 and n90 > 1e-290:
+                want = math.log(TN) + (k2 - k1) * math.log(TS)
+                if not close(math.log(n90 / n10), want, 1e-8, atol=1e-9):
+                    return (f"load {L!r} below both knees: log(N_90/N_10) = {math.log(n90 / n10)!r}, expected log TN + (k_2-k_1) log TS = {want!r}; {tag}", "TN-ratio")
         # ---- composition of transforms
         for p, q in zip(case["pfs"], case["pfs"][1:]):
             two = w.transform_to_failure_probability(p).transform_to_failure_probability(q).to_pandas()
@@ -756,13 +989,16 @@ class C08(Prop):
 
     def _oracle_bc(self, case):
         _wc()
-        try:
-            got = self._bc_impl(case)
-        except Exception as e:
-            return (f"broadcast call raised {type(e).__name__}: {e}; mode={case['mode']}", "broadcast-error")
         mode, vals, pf = case["mode"], case["vals"], float(case["pf"])
         curves = case["curves"]
-        what = f"mode={mode} pf={pf!r} vals={vals!r} curves={curves!r}"
+        what = (f"mode={mode} dtype={case.get('dtype') or 'float64'} labels={case.get('labels')!r} pf={pf!r} vals={vals!r} "
+                f"curves={curves!r}")
+        try:
+            got = self._bc_impl(case)
+        except AssertionError as e:
+            return (f"broadcast call: {e}; {what}", "broadcast-shape")
+        except Exception as e:
+            return (f"broadcast call raised {type(e).__name__}: {e}; {what}", "broadcast-error")
         ops = [(f"broadcast evaluation ({mode}) at failure probability {pf!r}", lambda a: self._bc_raw(case, a))]
         rows = case.get("pf_rows")
         if rows:
@@ -774,34 +1010,60 @@ class C08(Prop):
             return (f"broadcast call raised {type(e).__name__}: {e}; {what}", "broadcast-error")
         if res is not None:
             return res
+        els = self._bc_elements(case)
+        is_load = mode in LOAD_MODES
+        name = "load" if is_load else "cycles"
+
+        def scalar(ci, v, q):
+            w = curve_series({**curves[ci], "int_fields": False}).woehler
+            return fl((w.load if is_load else w.cycles)(float(v), float(q)))
+
+        def judge(got, pfs_of, label):
+            if len(got) != len(els):
+                return (f"{label}: {len(got)} entries, element-wise evaluation {len(els)}; {what}", "broadcast")
+            for g, (key, ci, v) in zip(got, els):
+                if ci is None:
+                    # a value whose label has no curve: there is nothing to evaluate - not a number (as load() answers)
+                    if g == g:
+                        d = (f"{label}: entry {key!r} = {g!r} for a value ({v!r}) whose label has no curve in the frame "
+                             f"(a number, where load() gives NaN); {what}")
+                        k = K_NOCURVE if (g == INF and not is_load) else "broadcast"
+                        if not self.known(k, d):
+                            return (d, k)
+                        self._count("known_finding_hits", k)
+                    continue
+                if v is None:
+                    if g == g:
+                        return (f"{label}: entry {key!r} = {g!r} for a curve without a value; {what}", "broadcast")
+                    continue
+                want = scalar(ci, v, pfs_of(ci))
+                if close(g, want, 1e-13):
+                    continue
+                d = f"{label}: {name} entry {key!r} = {g!r}, scalar evaluation of curve {ci} at {v!r} = {want!r}; {what}"
+                k = "broadcast"
+                if str(case.get("dtype", "")).startswith("uint") and is_load:
+                    # the documented defect, reproduced: `_make_k(-cyc, -ND)` negates an UNSIGNED array, which wraps around,
+                    # so no cycle number counts as "beyond ND" and the k_1 branch is used there
+                    tp = curve_series({**curves[ci], "int_fields": False}).woehler.transform_to_failure_probability(float(pfs_of(ci))).to_pandas()
+                    defect = float(tp.SD) * (float(v) / float(tp.ND)) ** (-1.0 / float(tp.k_1))
+                    if float(v) > float(tp.ND) and close(g, defect, 1e-12):
+                        k = K_UNSIGNED
+                if not self.known(k, d):
+                    return (d, k)
+                self._count("known_finding_hits", k)
+            return None
+
+        res = judge(got, lambda ci: pf, f"broadcast ({mode})")
+        if res is not None:
+            return res
         if rows:
-            _u, wf = self._bc_signal(case)
-            got_rows = self._bc_flat(case, wf, self._bc_raw(case, wf, np.array(rows, dtype=np.float64)))
-            want_rows = [fl(curve_series(c).woehler.cycles(float(v), float(q))) for c, v, q in zip(curves, vals, rows)]
-            if len(got_rows) != len(want_rows):
-                return (f"per-row probabilities: {len(got_rows)} entries, element-wise evaluation {len(want_rows)}; {what}", "broadcast")
-            for i, (a, b) in enumerate(zip(got_rows, want_rows)):
-                if not close(a, b, 1e-13):
-                    return (f"broadcast ({mode}) with per-row failure probabilities {rows!r}: entry {i} = {a!r}, scalar evaluation = {b!r}; {what}", "broadcast")
-        want = []
-        if mode in ("series", "array", "list"):
-            w = accessor(curves[0], curve_series(curves[0]))
-            want = [fl(w.cycles(float(v), pf)) for v in vals]
-        elif mode in ("lseries", "larray"):
-            w = accessor(curves[0], curve_series(curves[0]))
-            want = [fl(w.load(float(v), pf)) for v in vals]
-        elif mode == "cross":
-            for c in curves:
-                w = curve_series(c).woehler
-                want += [fl(w.cycles(float(v), pf)) for v in vals]
-        else:
-            for c, v in zip(curves, vals):
-                want.append(fl(curve_series(c).woehler.cycles(float(v), pf)))
-        if len(got) != len(want):
-            return (f"broadcast result has {len(got)} entries, element-wise evaluation {len(want)}; mode={mode}", "broadcast")
-        for i, (a, b) in enumerate(zip(got, want)):
-            if not close(a, b, 1e-13):
-                return (f"broadcast ({mode}) entry {i} = {a!r}, scalar evaluation = {b!r}", "broadcast")
+            try:
+                got_rows = self._bc_impl(case, np.array(rows, dtype=np.float64))
+            except AssertionError as e:
+                return (f"broadcast call with per-row failure probabilities: {e}; {what}", "broadcast-shape")
+            res = judge(got_rows, lambda ci: rows[ci], f"broadcast ({mode}) with per-row failure probabilities {rows!r}")
+            if res is not None:
+                return res
         return None
 
     def _oracle_sc(self, case):
@@ -854,7 +1116,7 @@ class C08(Prop):
                             cur = trial
                     except Exception:
                         pass
-        elif cur["t"] == "bc" and cur["mode"] in ("series", "array", "list", "lseries", "larray", "cross"):
+        elif cur["t"] == "bc" and cur["mode"] in ("series", "array", "list", "lseries", "larray", "llist", "cross", "lcross"):
             for v in list(cur["vals"]):
                 trial = dict(cur)
                 trial["vals"] = [v]
